@@ -26,7 +26,20 @@ fn kf1(scn: &Scn, clause: &str, detail: &str) -> bool {
     }
 }
 
-const PREDICATES: [(&str, fn(&Scn, &str, &str) -> bool); 1] = [("KF-1", kf1)];
+fn kf2(scn: &Scn, clause: &str, detail: &str) -> bool {
+    // C13: BlockModeEncrypt::encrypt_padded_vec::<NoPadding> on a message that is not a whole
+    // number of blocks hits an `expect` in the cipher crate's provided method.
+    if clause != "panic" || !detail.starts_with("enough space for encrypting is allocated: PadError") || !detail.contains("cipher-0.5.0-pre.8/src/block.rs") {
+        return false;
+    }
+    let g = if scn.mode.starts_with("cfb8") { 1 } else { scn.bs as u64 };
+    match scn.ops.last() {
+        Some(op) if op.k == "padded" => scn.mode.ends_with("enc") && op.via % 3 == 2 && op.ty % 5 == 2 && op.n % g != 0,
+        _ => false,
+    }
+}
+
+const PREDICATES: [(&str, fn(&Scn, &str, &str) -> bool); 2] = [("KF-1", kf1), ("KF-2", kf2)];
 
 /// returns the id of the matching open finding
 pub fn classify(findings: &[Finding], check: &str, scn: &Scn, clause: &str, detail: &str) -> Option<String> {
